@@ -13,6 +13,14 @@ CHECKS = {
               "(half bucket per column, stored range, zeros, diagonal, bucket size, re-quantisation idempotence). No absence proof."),
         note="Trusted: NumPy float64 arithmetic; flush-to-zero float model for columns below N*2^-126 (stated in evidence.assumptions).",
         design="DESIGN.md section 3, C11"),
+    "C17": dict(
+        category="exploration",
+        technique="property-based testing (Hypothesis generated layer sets / score vectors / scoring rules) against a validity predicate (integer ranks in 1..dim, per-group budget, inputs untouched)",
+        text=("Generated-input search over synthetic in-memory optimizer states: ~1.6e4 (quick) / ~1.4e5 (thorough) layer sets with shared "
+              "dimension groups, scale-disparate / tied / zero scores, all five scoring rules, running average, base rank below/equal/above "
+              "the dims. The oracle is the budget predicate of the property itself, summed independently. No absence proof."),
+        note="Trusted: the harness's construction of the states dict in the layout of the recorded checkpoint (reallocation_test_data).",
+        design="DESIGN.md section 3, C17"),
 }
 
 NOT_YET = {}
